@@ -223,6 +223,8 @@ def run(ck):
     api = {f.path for f in P.fns.values() if f.crate == "zlib_rs" and f.j.get("vis") == "Public" and P.callers_of(f.path) & set(roots)}
     abort.check(ck, P, roots, "ABORT/c-api", abort_table.JUSTIFIED, api_fns=api, label="C API")
     validation(ck, P)
+    from .. import taint as _t
+    _t.api_int_arith(ck, P, roots)
     from .. import condparity
     ck.floor("SIB/ref-conditions", condparity.check(ck, P, "SIB/ref-conditions", only={"deflate.c:deflateEnd", "inflate.c:inflateEnd", "inflate.c:inflateValidate", "compress.c:compress2", "uncompr.c:uncompress2", "deflate.c:deflateSetHeader", "deflate.c:deflateGetDictionary", "inflate.c:inflateGetDictionary", "deflate.c:deflatePending", "inflate.c:inflateMark", "deflate.c:deflateTune", "inflate.c:inflateCopy", "deflate.c:deflateCopy", "inflate.c:inflateResetKeep", "deflate.c:deflateReset", "deflate.c:deflateParams", "deflate.c:deflateInit2", "deflate.c:deflateSetDictionary", "deflate.c:deflatePrime", "deflate.c:deflateBound", "deflate.c:deflateResetKeep", "inflate.c:inflateReset2", "inflate.c:inflateInit2", "inflate.c:inflateSetDictionary", "inflate.c:inflatePrime", "inflate.c:inflateSync", "inflate.c:inflateSyncPoint", "inflate.c:inflateGetHeader", "inflate.c:inflate", "deflate.c:deflate"}), 80)
     from .. import refwrites
